@@ -26,7 +26,7 @@ inductive TS where
   | relInv (target : Nat)         -- release function of call `target` invoked; swap not done yet
   | relCS (target : Nat)          -- this release call won the swap; critical section pending
   | relDone                       -- release call about to return
-deriving DecidableEq, Repr, Inhabited
+deriving DecidableEq, Repr, Inhabited, Hashable
 
 /-- observable events: exactly what the harness logs -/
 inductive Obs where
@@ -83,9 +83,21 @@ def Obs.ev : Obs → Ev
 
 theorem Obs.ev_obs (o : Obs) : o.ev.obs = some o := by cases o <;> rfl
 
-/-- internal events to try: every thread's possible internal steps -/
-def internalCands (n : Nat) : List Ev :=
-  (List.range n).flatMap fun t => [.lockCS t, .wakeCS t, .ctxTake t, .cancelCS t, .tryCS t, .relSwap t, .relCS t]
+/-- internal events to try: the possible internal steps of every thread that is in the middle of a
+call (only an optimisation of the executable checker: `accepts_sound` holds for any candidate list) -/
+def internalCandsAux : List TS → Nat → List Ev
+  | [], _ => []
+  | ts :: rest, t =>
+    (match ts with
+     | .lockInv _ => [.lockCS t]
+     | .parked _ _ => [.wakeCS t, .ctxTake t]
+     | .cancelling _ => [.cancelCS t]
+     | .tryInv _ => [.tryCS t]
+     | .relInv _ => [.relSwap t]
+     | .relCS _ => [.relCS t]
+     | _ => []) ++ internalCandsAux rest (t + 1)
+
+def internalCands (th : List TS) : List Ev := internalCandsAux th 0
 
 def parseBoolTok (t f : String) (s : String) : Option Bool :=
   if s == t then some true else if s == f then some false else none
